@@ -54,6 +54,14 @@ CLAIMS = {
             "Every pattern up to length 3 (thorough: 5) is compiled and matched against every key up to length 4 (thorough: 5) over {a,b,*,?,.,+,(,|,$} and compared with a reference matcher; longer random patterns add ) ^ { } space newline and non-ASCII; a populated example store must answer KEYS with exactly the reference-selected keys and SCAN MATCH with the same set.",
             "'[', ']' and backslash are not generated (Redis glob syntax the property does not mention); '?' is compared as one character (rune).",
             "DESIGN.md 4/C17"),
+    "C08": ("bounded-exhaustive sequence enumeration + stateful property-based testing (rapid) over 1..3 scripted connections; oracle = per-connection authorization model over handler calls and replies",
+            "All request sequences up to length 3 over a 30-symbol alphabet built around the password (every listed AUTH candidate, one- and two-argument forms, non-AUTH commands) and all interleavings of two connections with two requests each are enumerated; longer random interleavings over up to 3 connections and 5 passwords follow. The harness owns the interleaving at request granularity, so every schedule is replayable.",
+            "The server is configured through SetRequirePass + Start (port disabled), the genuine configuration path. AUTH '' P and AUTH default P may be accepted or refused (ambiguous in the property).",
+            "DESIGN.md 4/C08"),
+    "C13": ("systematic interleaving enumeration + stateful property-based testing (rapid) over 2..8 scripted connections; oracle = per-connection model of database/authorization/user data checked inside every handler call",
+            "Interleavings of SELECT/AUTH/data/REMEMBER scripts are generated at request granularity (all 20 interleavings of two 3-request scripts for a systematic set of script pairs, random interleavings of up to 8 connections); the recording handler reports conn.Database(), IsAuthrized() and the per-connection sync.Map token seen inside each call, which must match that connection's own history.",
+            "Request-granularity interleavings; true parallelism is exercised by C14/C16. The thorough tier additionally builds with -race.",
+            "DESIGN.md 4/C13"),
 }
 
 PENDING = {
